@@ -512,7 +512,7 @@ def c20_concurrent(ctx):
 SHAPE = {"quick": ["-families", "shape", "-n", "1", "-faults", "none", "-maxruns", "40000", "-shards", "8"],
          "thorough": ["-families", "shape", "-n", "4", "-faults", "none", "-maxruns", "40000", "-shards", "14"]}
 SHAPE_RULE = "; structural variants: each of actor / object / target / to / cc / bto / bcc / audience / id / type / inReplyTo / attributedTo of a valid request of every inbox and outbox type made absent, empty, doubled, a plain string, an embedded value without id"
-AGAIN = {"quick": ["-families", "again", "-n", "16", "-faults", "none", "-shards", "2"], "thorough": ["-families", "again", "-n", "160", "-faults", "single", "-shards", "8"]}
+AGAIN = {"quick": ["-families", "again", "-n", "28", "-faults", "none", "-shards", "2"], "thorough": ["-families", "again", "-n", "160", "-faults", "single", "-shards", "8"]}
 FOCUS_FAULTS = {"quick": ["-families", "fedfocus", "-n", "3", "-faults", "single", "-maxruns", "4000", "-shards", "8"],
                 "thorough": ["-families", "fedfocus", "-n", "20", "-faults", "single", "-maxruns", "40000", "-shards", "14"]}
 GATE = {"quick": ["-families", "gate", "-gate", "600"], "thorough": ["-families", "gate", "-gate", "0", "-maxruns", "40000"]}
@@ -559,7 +559,7 @@ def check_C09(ctx):
                          "modelled, not verified: Go's defer (per-iteration closures as bracket, function-level defers of InboxForwarding as a pending list released in reverse order at return); Unlock's own error is ignored as in the code"],
                         {"monitors": ["lock_bad"], "classify": classify,
                          "rule": "every standard scenario fault-free and with every single fallible call failing (thorough: more scenarios); judged by the strict lock monitor" + SHAPE_RULE},
-                        run_specs=[("shape", SHAPE[ctx.tier]), ("focusfaults", FOCUS_FAULTS[ctx.tier]), ("std", PUB_STD[ctx.tier])])
+                        run_specs=[("shape", SHAPE[ctx.tier]), ("focusfaults", FOCUS_FAULTS[ctx.tier]), ("again", AGAIN[ctx.tier]), ("std", PUB_STD[ctx.tier])])
 
 
 def replay_C09(ctx):
@@ -575,8 +575,8 @@ def check_C20(ctx):
                          "modelled, not verified: SHA-256 / base64 (the harness recomputes them over the captured bytes), encoding/json marshalling (bodies are compared as JSON values), time.Format (compared on every generated instant), the top-level @context (C01)"],
                         {"monitors": ["serve_bad"], "classify": classify, "extra": c20_concurrent,
                          "rule": "random pages with 0..11 items as IRIs or embedded values with duplicates anywhere, a stored value of every vocabulary type, Tombstones, hidden recipients at object depth 0..2, random clock instants; every single fault"},
-                        family_filter=lambda f: f.startswith("get:"),
-                        run_specs=[("get", ["-families", "get,gettypes", "-n", n, "-faults", "single", "-maxruns", "6000"])])
+                        family_filter=lambda f: f.startswith(("get:", "again:get-twice")),
+                        run_specs=[("get", ["-families", "get,gettypes", "-n", n, "-faults", "single", "-maxruns", "6000"]), ("again", AGAIN[ctx.tier])])
 
 
 def replay_C20(ctx):
@@ -593,8 +593,8 @@ def check_C02(ctx):
                          "modelled, not verified: the HTTP transport itself (C19); goroutine-free sequential resolution as in the code"],
                         {"monitors": ["delivery_bad"], "classify": classify,
                          "rule": "random federation graphs (family deliver: up to 10 actors and collections, nested / cyclic collections, duplicates, both Public spellings, the sender, unreachable / garbled / unknown-type documents, any subset of stored inboxes, depth 1..4) through Send, plus every standard outbox scenario; single faults; the real trace is judged against spec_targets of the graph read off that trace"},
-                        family_filter=lambda f: f.startswith(("outbox:", "send:", "deliver:")),
-                        run_specs=[("deliver", ["-families", "deliver", "-n", n, "-faults", "single", "-maxruns", "6000"]), ("std", PUB_STD[ctx.tier])])
+                        family_filter=lambda f: f.startswith(("outbox:", "send:", "deliver:", "again:two-outboxes")),
+                        run_specs=[("deliver", ["-families", "deliver", "-n", n, "-faults", "single", "-maxruns", "6000"]), ("again", AGAIN[ctx.tier]), ("std", PUB_STD[ctx.tier])])
 
 
 def replay_C02(ctx):
